@@ -293,4 +293,148 @@ example : ∃ f ∈ Gen.fields, f.path = "datastore_namespace" ∧ f.sec = "raft
 set_option maxRecDepth 20000 in
 example : (Gen.fields.filter (fun f => lossless f.load f.save)).length ≥ 100 := by decide
 
+/-! ## 3. config.Manager and the remote `source` (model `Src` in Model/C15.lean)
+
+For every URL type, every web and every prior Manager state. -/
+namespace Src
+
+variable {υ : Type}
+
+/-- **plain_roundtrip**: a valid plain configuration loaded by a Manager that has no source is saved in full,
+and loading the saved form (fresh Manager) gives the same effective configuration, still without a source. -/
+theorem plain_roundtrip (web : υ → Remote υ) (m : Mgr υ) (c : Nat) (hs : m.source = none) :
+    let r := loadJSON web m (.plain c true)
+    r.2 = true ∧ r.1.cfg = some c ∧ r.1.source = none ∧ save r.1 = some (.plain c true) ∧
+    loadJSON web fresh (.plain c true) = ({ source := none, cfg := some c }, true) := by
+  simp [loadJSON, save, hs, fresh]
+
+/-- **source_roundtrip**: for every URL whose remote body is a valid plain configuration (status < 300), on
+*any* Manager state: the load is accepted, the Manager remembers the URL, the sections hold the remote
+configuration, what is saved is exactly `{"source": url}`, and a fresh Manager loading that saved form ends in
+the same effective configuration with the same source. -/
+theorem source_roundtrip (web : υ → Remote υ) (m : Mgr υ) (u : υ) (code c : Nat)
+    (hw : web u = .resp code (.plain c true)) (hc : code < 300) :
+    let r := loadJSON web m (.sourced u)
+    r.2 = true ∧ r.1 = { source := some u, cfg := some c } ∧ save r.1 = some (.sourced u) ∧
+    loadJSON web fresh (.sourced u) = ({ source := some u, cfg := some c }, true) := by
+  have : ¬ code ≥ 300 := by omega
+  simp [loadJSON, fromHTTP, loadNested, save, hw, this]
+
+/-- the same through `LoadJSONFromHTTPSource` -/
+theorem http_roundtrip (web : υ → Remote υ) (m : Mgr υ) (u : υ) (code c : Nat)
+    (hw : web u = .resp code (.plain c true)) (hc : code < 300) :
+    fromHTTP web m u = ({ source := some u, cfg := some c }, true) ∧
+    save (fromHTTP web m u).1 = some (.sourced u) := by
+  have : ¬ code ≥ 300 := by omega
+  simp [fromHTTP, loadNested, save, hw, this]
+
+/-- exactly which documents the loader accepts -/
+theorem accepted_iff (web : υ → Remote υ) (m : Mgr υ) (d : Doc υ) :
+    (loadJSON web m d).2 = true ↔
+      (∃ c, d = .plain c true) ∨ (∃ u code c, d = .sourced u ∧ web u = .resp code (.plain c true) ∧ code < 300) := by
+  cases d with
+  | garbage => simp [loadJSON]
+  | plain c v => cases v <;> simp [loadJSON]
+  | sourced u =>
+    constructor
+    · intro h
+      simp only [loadJSON, fromHTTP] at h
+      cases hw : web u with
+      | down => simp [hw] at h
+      | resp code body =>
+        by_cases hc : code ≥ 300
+        · simp [hw, hc] at h
+        · cases body with
+          | garbage => simp [hw, hc, loadNested] at h
+          | sourced u2 => simp [hw, hc, loadNested] at h
+          | plain c v =>
+            cases v
+            · simp [hw, hc, loadNested] at h
+            · exact Or.inr ⟨u, code, c, rfl, hw, by omega⟩
+    · rintro (⟨c, hd⟩ | ⟨u', code, c, hd, hw, hc⟩)
+      · cases hd
+      · cases hd
+        have : ¬ code ≥ 300 := by omega
+        simp [loadJSON, fromHTTP, loadNested, hw, this]
+
+/-- an accepted load always leaves sections that validate (`ToJSON` does not refuse) -/
+theorem accepted_valid (web : υ → Remote υ) (m : Mgr υ) (d : Doc υ) (h : (loadJSON web m d).2 = true) :
+    (loadJSON web m d).1.cfg ≠ none := by
+  rcases (accepted_iff web m d).mp h with ⟨c, rfl⟩ | ⟨u, code, c, rfl, hw, hc⟩
+  · simp [loadJSON]
+  · have := (source_roundtrip web m u code c hw hc).2.1
+    simp [this]
+
+/-- a remote body that declares a source of its own is refused (after `Source` was set to the inner URL) -/
+theorem nested_source_refused (web : υ → Remote υ) (m : Mgr υ) (u u2 : υ) (code : Nat)
+    (hw : web u = .resp code (.sourced u2)) :
+    (loadJSON web m (.sourced u)).2 = false := by
+  by_cases hc : code ≥ 300 <;> simp [loadJSON, fromHTTP, loadNested, hw, hc]
+
+/-- a failing fetch or a status ≥ 300 is refused — and leaves `Source` set to the URL -/
+theorem failed_fetch_refused (web : υ → Remote υ) (m : Mgr υ) (u : υ)
+    (hw : web u = .down ∨ ∃ code body, web u = .resp code body ∧ code ≥ 300) :
+    fromHTTP web m u = ({ m with source := some u }, false) := by
+  rcases hw with h | ⟨code, body, h, hc⟩
+  · simp [fromHTTP, h]
+  · simp [fromHTTP, h, hc]
+
+/-- nothing ever clears `Source`: once set it stays set under every operation -/
+theorem source_never_cleared (web : υ → Remote υ) (m : Mgr υ) (o : Op υ) (h : m.source ≠ none) :
+    (step web m o).1.source ≠ none := by
+  cases o with
+  | dflt => simpa [step, dflt] using h
+  | http u =>
+    simp only [step, fromHTTP]
+    cases web u with
+    | down => simp
+    | resp code body => by_cases hc : code ≥ 300 <;> cases body <;> simp [hc, loadNested]
+  | load d =>
+    cases d with
+    | garbage => simpa [step, loadJSON] using h
+    | plain c v => simpa [step, loadJSON] using h
+    | sourced u =>
+      simp only [step, loadJSON, fromHTTP]
+      cases web u with
+      | down => simp
+      | resp code body => by_cases hc : code ≥ 300 <;> cases body <;> simp [hc, loadNested]
+
+/-- the full statement for a re-used Manager: whatever happened before, an accepted plain configuration is
+what gets saved -/
+def reuse_full (υ : Type) : Prop :=
+  ∀ (web : υ → Remote υ) (ops : List (Op υ)) (c : Nat),
+    save (loadJSON web (run web fresh ops).1 (.plain c true)).1 = some (.plain c true)
+
+/-- **The unchanged code violates it** (finding K34): after a sourced load — accepted, or refused because the
+fetch failed — the stale `Source` makes the save of a later plain configuration write `{"source": url}`. -/
+theorem reuse_full_fails : ¬ reuse_full Nat := by
+  intro h
+  have := h (fun _ => .down) [.http 7] 1
+  simp [run, step, fromHTTP, loadJSON, save, fresh] at this
+
+/-- what does hold: as long as no earlier operation set a source -/
+theorem reuse_partial (web : υ → Remote υ) (m : Mgr υ) (c : Nat) (hs : m.source = none) :
+    save (loadJSON web m (.plain c true)).1 = some (.plain c true) :=
+  (plain_roundtrip web m c hs).2.2.2.1
+
+/-- and exactly what happens otherwise: the plain configuration is dropped from the saved form -/
+theorem stale_source_drops_plain (web : υ → Remote υ) (m : Mgr υ) (u : υ) (c : Nat) (hs : m.source = some u) :
+    (loadJSON web m (.plain c true)).2 = true ∧ save (loadJSON web m (.plain c true)).1 = some (.sourced u) := by
+  simp [loadJSON, save, hs]
+
+/-- `Manager.Default()` does not clear a source either -/
+theorem default_keeps_source (m : Mgr υ) : (dflt m).source = m.source := rfl
+
+example : (run (fun (u : Nat) => if u = 1 then Remote.resp 200 (.plain 5 true) else .down) fresh
+    [.load (.sourced 1), .load (.plain 2 true)]).2 = [true, true] := by decide
+
+/-- on a fresh Manager every accepted document is saved as itself (plain in full, sourced as its source) -/
+theorem fresh_accept_saves_same (web : υ → Remote υ) (d : Doc υ) (h : (loadJSON web fresh d).2 = true) :
+    save (loadJSON web fresh d).1 = some d := by
+  rcases (accepted_iff web fresh d).mp h with ⟨c, rfl⟩ | ⟨u, code, c, rfl, hw, hc⟩
+  · exact (plain_roundtrip web fresh c rfl).2.2.2.1
+  · exact (source_roundtrip web fresh u code c hw hc).2.2.1
+
+end Src
+
 end CV.C15
